@@ -305,7 +305,7 @@ def build_all(timeout=3000):
         ensure_project()
         # -k: one property's broken proof must not prevent the others from being built;
         # every check rebuilds and judges its own Props/Cxx.vo anyway
-        rc, out, err, dt = run(["make", "-k", "-j16"], timeout=timeout, cwd=COQ)
+        rc, out, err, dt = run(["make", "-k", "-j16", "COQC=timeout 900 coqc"], timeout=timeout, cwd=COQ)
     return rc, out, err, st
 
 
@@ -400,7 +400,7 @@ class Check:
                 os.remove(os.path.join(COQ, vo))
             except OSError:
                 pass
-            rc, out, err, dt = run(["make", "-j16", vo], timeout=timeout, cwd=COQ)
+            rc, out, err, dt = run(["make", "-j16", "COQC=timeout 900 coqc", vo], timeout=timeout, cwd=COQ)
         cmd = f"cd {COQ} && make -j16 {vo}   (coqc 8.16.1, full .vo build; Print Assumptions after every theorem)"
         self.coverage["checker_cmd"] = cmd
         self.notes["proof_build_s"] = round(dt, 1)
